@@ -381,24 +381,82 @@ Fixpoint canon (r : rty) : cty :=
   end.
 
 (* ====================================================================================================== *)
+(* simple_parsing.utils type predicates (their decision chains and name lists are regenerated facts)       *)
+(* ====================================================================================================== *)
+Definition BUILTIN_CLASS_NAMES : list string :=
+  ["int"; "float"; "str"; "bool"; "list"; "tuple"; "dict"; "set"; "type"; "object"; "bytes"; "complex"; "frozenset"].
+
+(* utils._mro: `if <test>: return <answer>` chain *)
+Inductive mtest := MIsNone | MHasDunderMro | MOriginIsType | MHasMroMethod.
+Inductive mans := MEmpty | MDunderMro | MCallMro.
+
+Definition origin_name (o : origin) : string :=
+  match o with OList => "list" | OTuple => "tuple" | ODict => "dict" | OSet => "set" | OType => "type" end.
+
+(* CPython: a class has __mro__; types.GenericAlias forwards every attribute to its origin; a typing alias forwards
+   only non-dunder attributes (so no __mro__, but mro()); unions, None and Ellipsis have neither *)
+Definition mtest_holds (t : mtest) (r : rty) : bool :=
+  match t, r with
+  | MIsNone, RNone => true
+  | MHasDunderMro, RCls _ => true
+  | MHasDunderMro, RGen false _ _ => true
+  | MOriginIsType, RGen _ OType _ => true
+  | MHasMroMethod, RCls _ => true
+  | MHasMroMethod, RGen _ _ _ => true
+  | _, _ => false
+  end.
+
+(* the builtin / typing classes along the MRO (only list / tuple / dict / Mapping membership is ever asked; a class
+   that is not a builtin contributes nothing that could be looked for) *)
+Definition mro_names (r : rty) : list string :=
+  match r with
+  | RCls n => if str_in n BUILTIN_CLASS_NAMES then [n; "object"] else ["object"]
+  | RGen _ o _ => [origin_name o; "object"]
+  | _ => []
+  end.
+
+Definition mans_val (a : mans) (r : rty) : list string :=
+  match a with MEmpty => [] | MDunderMro | MCallMro => mro_names r end.
+
+Fixpoint mro_m (chain : list (mtest * mans)) (els : mans) (r : rty) : list string :=
+  match chain with
+  | [] => mans_val els r
+  | (t, a) :: rest => if mtest_holds t r then mans_val a r else mro_m rest els r
+  end.
+
+(* utils.is_list / is_tuple / is_dict: `<name> in _mro(t)` for the listed names *)
+Definition in_mro (chain : list (mtest * mans)) (els : mans) (names : list string) (r : rty) : bool :=
+  existsb (fun n => str_in n (mro_m chain els r)) names.
+
+(* utils.is_union: which runtime representations of a union it accepts *)
+Inductive ukind := UKUnionType | UKTypingUnion.
+Definition ukind_eqb (a b : ukind) : bool :=
+  match a, b with UKUnionType, UKUnionType | UKTypingUnion, UKTypingUnion => true | _, _ => false end.
+
+Definition is_union_m (kinds : list ukind) (r : rty) : bool :=
+  match r with
+  | RUType _ => existsb (ukind_eqb UKUnionType) kinds
+  | RTUnion _ => existsb (ukind_eqb UKTypingUnion) kinds
+  | _ => false
+  end.
+
+(* utils.get_type_arguments = typing.get_args *)
+Definition get_args_m (r : rty) : list rty :=
+  match r with RGen _ _ l | RTUnion l | RUType l => l | _ => [] end.
+
+(* ====================================================================================================== *)
 (* (a) _replace_UnionType_with_typing_Union                                                                *)
 (* ====================================================================================================== *)
 Inductive ntest := NIsUnionType | NIsList | NIsTuple | NIsDict | NInBuiltins | NIsClass
                  | NIsEllipsis.   (* not in the source today: the arm a repair of the Tuple[X, ...] defect would add *)
 Inductive nact := AUnion | AList | ATuple | ADict | AId | ARaise (cls : string).
 
-Definition BUILTIN_CLASS_NAMES : list string :=
-  ["int"; "float"; "str"; "bool"; "list"; "tuple"; "dict"; "set"; "type"; "object"; "bytes"; "complex"; "frozenset"].
-
-Definition ntest_holds (t : ntest) (r : rty) : bool :=
+Definition ntest_holds (is_list is_tuple is_dict : rty -> bool) (t : ntest) (r : rty) : bool :=
   match t, r with
   | NIsUnionType, RUType _ => true
-  | NIsList, RGen _ OList _ => true
-  | NIsList, RCls n => String.eqb n "list"
-  | NIsTuple, RGen _ OTuple _ => true
-  | NIsTuple, RCls n => String.eqb n "tuple"
-  | NIsDict, RGen _ ODict _ => true
-  | NIsDict, RCls n => String.eqb n "dict"
+  | NIsList, _ => is_list r
+  | NIsTuple, _ => is_tuple r
+  | NIsDict, _ => is_dict r
   | NInBuiltins, RCls n => str_in n BUILTIN_CLASS_NAMES
   | NIsClass, RCls _ => true
   | NIsEllipsis, REllipsis => true
@@ -411,14 +469,18 @@ Fixpoint seq_res {A} (l : list (res A)) : res (list A) :=
   | x :: r => bind x (fun y => bind (seq_res r) (fun ys => Ok (y :: ys)))
   end.
 
+(* get_field_type_from_annotations: what is done to the evaluated hint, in source order *)
+Inductive rstep := SForwardRefArg | SNormTopUnionType | SRewriteStrBar | SReevaluate.
+
 Section Norm.
+  Variables is_list is_tuple is_dict : rty -> bool.   (* Gen: utils.is_list / is_tuple / is_dict over utils._mro *)
   Variable norm_table : list (ntest * nact).   (* Gen: the `if ...: return ...` chain, in source order *)
   Variable norm_else : nact.                    (* Gen: what happens when no test holds *)
 
   Fixpoint pick (tbl : list (ntest * nact)) (r : rty) : nact :=
     match tbl with
     | [] => norm_else
-    | (t, a) :: rest => if ntest_holds t r then a else pick rest r
+    | (t, a) :: rest => if ntest_holds is_list is_tuple is_dict t r then a else pick rest r
     end.
 
   (* ns = the recursive results for typing.get_args(r), left to right, consumed lazily by the action *)
@@ -449,18 +511,100 @@ Section Norm.
     run_act (pick norm_table r) r ns.
 
   (* DataclassWrapper.__init__ l.81-92 / FieldWrapper.type: a str annotation is resolved by
-     get_field_type_from_annotations (get_type_hints succeeds: names are bound; a top-level None becomes NoneType;
-     only a top-level types.UnionType is normalised; InitVar[...] is not a UnionType and is unwrapped later). *)
+     get_field_type_from_annotations (get_type_hints succeeds: names are bound; a top-level None becomes NoneType);
+     then the steps of the function in source order (Gen).  On an evaluated hint only the normalisation of a top-level
+     types.UnionType does anything: a ForwardRef / str is not what get_type_hints returned, re-evaluating an evaluated
+     hint gives it back; InitVar[...] is not a UnionType and is unwrapped later. *)
+  Variable steps : list rstep.
+
+  Definition apply_step (initvar : bool) (s : rstep) (r : rty) : res rty :=
+    match s with
+    | SNormTopUnionType => match r with RUType _ => if initvar then Ok r else norm r | _ => Ok r end
+    | SForwardRefArg | SRewriteStrBar | SReevaluate => Ok r
+    end.
+
+  Fixpoint run_steps (initvar : bool) (l : list rstep) (r : rty) : res rty :=
+    match l with [] => Ok r | s :: rest => bind (apply_step initvar s r) (run_steps initvar rest) end.
+
   Definition resolve (env : list (string * string)) (postponed initvar : bool) (t : texp) : res rty :=
-    if postponed then
-      bind (eval env t) (fun r =>
-        let r := none_to_cls r in
-        match r with
-        | RUType _ => if initvar then Ok r else norm r
-        | _ => Ok r
-        end)
+    if postponed then bind (eval env t) (fun r => run_steps initvar steps (none_to_cls r))
     else eval [] t.
 End Norm.
+
+(* ====================================================================================================== *)
+(* which fields become nested-dataclass wrappers (DataclassWrapper.__init__ dispatch + utils helpers)       *)
+(* ====================================================================================================== *)
+Inductive ctest := CTIsDataclass | CTSeqOfDataclasses | CTIsUnion.       (* utils.contains_dataclass_type_arg *)
+Inductive cans := CATrue | CAAnyArg | CAFalse.
+Inductive dtest := DSubparserOrChoice | DDataclassDefaultNotNone | DContainsDataclass.   (* DataclassWrapper.__init__ *)
+Inductive wkind := WField | WChild | WOptChild.
+
+Definition wkind_eqb (a b : wkind) : bool :=
+  match a, b with WField, WField | WChild, WChild | WOptChild, WOptChild => true | _, _ => false end.
+
+Section Wrap.
+  Variables is_list is_tuple : rty -> bool.          (* Gen *)
+  Variable ukinds : list ukind.                      (* Gen: utils.is_union *)
+  Variable contains_chain : list (ctest * cans).     (* Gen: utils.contains_dataclass_type_arg *)
+  Variable contains_else : cans.
+  Variable guard_seq_raises : bool.                  (* Gen: list/tuple of dataclasses -> NotImplementedError *)
+  Variable wrap_chain : list (dtest * wkind).        (* Gen: if/elif chain of the loop body *)
+  Variable wrap_else : wkind.
+  Variable dcs : list string.                        (* the dataclass classes in scope *)
+
+  Definition is_dc (r : rty) : bool := match r with RCls n => str_in n dcs | _ => false end.
+
+  (* utils.get_item_type: the first of __args__ (classes have none) *)
+  Definition item_is_dc (r : rty) : bool :=
+    match r with
+    | RGen _ _ (a :: _) | RTUnion (a :: _) | RUType (a :: _) => is_dc a
+    | _ => false
+    end.
+
+  Definition seq_of_dc (r : rty) : bool := (is_list r || is_tuple r) && item_is_dc r.
+
+  Definition ctest_holds (t : ctest) (r : rty) : bool :=
+    match t with
+    | CTIsDataclass => is_dc r
+    | CTSeqOfDataclasses => seq_of_dc r
+    | CTIsUnion => is_union_m ukinds r
+    end.
+
+  Fixpoint cpick (tbl : list (ctest * cans)) (r : rty) : cans :=
+    match tbl with
+    | [] => contains_else
+    | (t, a) :: rest => if ctest_holds t r then a else cpick rest r
+    end.
+
+  Fixpoint contains_dc (r : rty) : bool :=
+    let sub : bool :=
+        match r with
+        | RGen _ _ l | RTUnion l | RUType l =>
+            (fix go (l : list rty) : bool := match l with [] => false | x :: t => contains_dc x || go t end) l
+        | _ => false
+        end in
+    match cpick contains_chain r with CATrue => true | CAAnyArg => sub | CAFalse => false end.
+
+  (* utils.is_subparser_field (no subparsers= / choices= metadata): a union all of whose members are dataclasses *)
+  Definition is_subparser (r : rty) : bool := is_union_m ukinds r && forallb is_dc (get_args_m r).
+
+  Definition dtest_holds (t : dtest) (r : rty) (default_none : bool) : bool :=
+    match t with
+    | DSubparserOrChoice => is_subparser r
+    | DDataclassDefaultNotNone => is_dc r && negb default_none
+    | DContainsDataclass => contains_dc r
+    end.
+
+  Fixpoint dpick (tbl : list (dtest * wkind)) (r : rty) (default_none : bool) : wkind :=
+    match tbl with
+    | [] => wrap_else
+    | (t, k) :: rest => if dtest_holds t r default_none then k else dpick rest r default_none
+    end.
+
+  Definition wrapper_kind (r : rty) (default_none : bool) : res wkind :=
+    if guard_seq_raises && seq_of_dc r then Err (Raise "NotImplementedError")
+    else Ok (dpick wrap_chain r default_none).
+End Wrap.
 
 (* ====================================================================================================== *)
 (* (c) the field list of a class in an inheritance chain                                                    *)
@@ -498,7 +642,8 @@ Record fdecl := mkf {
   f_ty : cty;            (* the type meant (rendered in the spelling of the module) *)
   f_kind : fkind;
   f_init : bool;         (* field(init=...) *)
-  f_cmd : bool           (* field(metadata cmd=...) *)
+  f_cmd : bool;          (* field(metadata cmd=...) *)
+  f_dnone : bool         (* the default is None *)
 }.
 
 (* _get_dataclass_fields keeps the kinds in `kinds` (Gen); DataclassWrapper skips init=False and cmd=False *)
@@ -568,11 +713,13 @@ Fixpoint rt (sp : spelling) (c : cty) : rty :=
 (* ====================================================================================================== *)
 (* the wrapper field list of one rendering: names and canonicalised FieldWrapper.type, or the set-up error  *)
 (* ====================================================================================================== *)
-Definition field_types (norm_table : list (ntest * nact)) (norm_else : nact) (env : list (string * string))
-           (kinds : list fkind) (sp : spelling) (postponed : bool) (l : list (string * fdecl))
+Definition field_types (is_list is_tuple is_dict : rty -> bool) (norm_table : list (ntest * nact)) (norm_else : nact)
+           (steps : list rstep) (env : list (string * string)) (kinds : list fkind) (initvar_unwrapped : bool)
+           (sp : spelling) (postponed : bool) (l : list (string * fdecl))
   : res (list (string * cty)) :=
   mapM (fun kv =>
-          bind (resolve norm_table norm_else env postponed (fkind_eqb (f_kind (snd kv)) KInitVar)
+          let iv := fkind_eqb (f_kind (snd kv)) KInitVar in
+          bind (resolve is_list is_tuple is_dict norm_table norm_else steps env postponed iv
                         (render sp (f_ty (snd kv))))
-               (fun o => Ok (fst kv, canon o)))
+               (fun o => Ok (fst kv, if iv && negb initvar_unwrapped then CBad else canon o)))   (* FieldWrapper.type *)
        (wrapper_fields kinds l).
